@@ -90,6 +90,22 @@ func caseOf(m *Mutant) *props.Case {
 			m.Index, m.Triple.File, m.Triple.Title, m.Role, m.Kind, m.Pos, m.Line)}
 }
 
+// Samples in the evidence are bounded.
+func clipStr(s string) string {
+	if len(s) > 3000 {
+		return s[:3000] + fmt.Sprintf("...[%d bytes]", len(s))
+	}
+	return s
+}
+
+func clipFiles(f tool.Files) tool.Files {
+	r := tool.Files{}
+	for k, v := range f {
+		r[k] = clipStr(v)
+	}
+	return r
+}
+
 func sigFile(sig string) string {
 	return strings.NewReplacer(":", "_", "/", "_", "*", "", "(", "", ")", "").Replace(sig) + ".json"
 }
@@ -264,7 +280,7 @@ func TestC20(t *testing.T) {
 			switch v.Status {
 			case props.Pass:
 				ev.NonTrivial(strings.Join([]string{fam, role, m.Kind, v.Reason}, "\x00"), func() any {
-					return map[string]any{"generator_note": c.Gen, "diagnostic": v.Reason, "files": c.Files}
+					return map[string]any{"generator_note": c.Gen, "diagnostic": v.Reason, "files": clipFiles(c.Files)}
 				})
 			case props.Fail: // listed known finding, set aside by Judge
 				ev.Class("outcome:crash-or-violation-known")
@@ -353,12 +369,10 @@ func TestC20(t *testing.T) {
 				ev.Class("kind:status-" + sm.kind)
 				if v.Status == props.Pass {
 					ev.NonTrivial(strings.Join([]string{arm, sm.kind, v.Reason}, "\x00"), func() any {
-						return map[string]any{"generator_note": c.Gen, "arm": arm, "status": sm.content, "diagnostic": v.Reason}
+						return map[string]any{"generator_note": c.Gen, "arm": arm, "status": clipStr(sm.content), "diagnostic": v.Reason}
 					})
 				}
 			}
 		}
 	})
 }
-
-var _ = tool.Files{}
